@@ -454,7 +454,7 @@ pub fn main(args: &[String]) {
         let mut src0 = m.rust();
         let mut tag = String::from("plain");
         if i % 3 != 0 {
-            let (t, items) = crate::extras::extras_with(&mut rng, &m, prof.option, Some(i / BACKENDS.len() + i));
+            let (t, items) = crate::extras::extras_with(&mut rng, &m, prof.option, &[i / BACKENDS.len() + i]);
             let with = crate::extras::splice(&src0, &items);
             if gen(&with, target).is_ok() {
                 src0 = with;
